@@ -182,3 +182,25 @@ Definition circle_draw_styled (c : circle) (st : style) : list fill_call :=
 (* styled.rs:149-155 *)
 Definition circle_styled_bbox (c : circle) (st : style) : rect :=
   offset (circle_bbox c) (sat_u32_to_i32 (outside_stroke_width st)).
+
+(* ---- machine arithmetic of Circle::contains ---------------------------------------------- *)
+Definition in_u64 (x : Z) : bool := (0 <=? x) && (x <=? 18446744073709551615).
+
+(* Every arithmetic result Circle::contains(p) computes (circle/mod.rs:89-94 center_2x: `top_left * 2 + Size(radius)`
+   with core point.rs:275-283 `as i32` + debug_assert >= 0; mod.rs:132-136 `center_2x - point * 2`,
+   geometry/mod.rs:50-52 `x.pow(2) + y.pow(2)` in i32, `as u32`; mod.rs:180-186 `diameter.pow(2)` in u32) fits the Rust
+   type it is computed in.  When this is false a build with overflow checks panics and a release build wraps. *)
+Definition circle_contains_fits (c : circle) (p : point) : bool :=
+  let d := c_d c in
+  let radius := sat_sub_u32 d 1 in
+  let tx := px (c_tl c) * 2 in let ty := py (c_tl c) * 2 in
+  let cx := tx + radius in let cy := ty + radius in
+  let qx := px p * 2 in let qy := py p * 2 in
+  let dx := cx - qx in let dy := cy - qy in
+  in_i32 tx && in_i32 ty && in_i32 radius && in_i32 cx && in_i32 cy && in_i32 qx && in_i32 qy
+  && in_i32 dx && in_i32 dy && in_i32 (dx * dx) && in_i32 (dy * dy) && in_i32 (dx * dx + dy * dy)
+  && in_u32 (d * d).
+
+(* contains() as a build with overflow checks evaluates it: None = arithmetic overflow panic *)
+Definition circle_contains_checked (c : circle) (p : point) : option bool :=
+  if circle_contains_fits c p then Some (circle_contains c p) else None.
